@@ -294,3 +294,75 @@ Proof.
   intros Hm Ho. unfold load. rewrite Hm. destruct (Z.ltb_spec (Z.of_nat o) 0); [lia|]. rewrite Nat2Z.id.
   rewrite nth_error_app1 by (apply nth_error_Some; congruence). rewrite Ho. reflexivity.
 Qed.
+
+(* ---- int arrays in memory: block b holds the ints l (each inside int), one per cell *)
+Definition int_arr_at (m : mem) (b : nat) (l : list Z) : Prop := nth_error m b = Some (map VInt l).
+Definition ints_ok (l : list Z) : Prop := Forall (fun z => -2147483648 <= z <= 2147483647) l.
+Definition nthz (l : list Z) (i : Z) : Z := nth (Z.to_nat i) l 0.
+
+Lemma wrap_I32_id z : -2147483648 <= z <= 2147483647 -> wrap I32 z = z.
+Proof.
+  intro H. unfold wrap. cbn [ity_bits ity_signed andb].
+  change (2 ^ 32) with 4294967296. change (2 ^ (32 - 1)) with 2147483648.
+  destruct (Z.leb_spec 2147483648 (z mod 4294967296)) as [L|L].
+  - assert (z < 0) by (destruct (Z.lt_ge_cases z 0); [assumption|rewrite Z.mod_small in L by lia; lia]).
+    rewrite <- (Z.mod_add z 1 4294967296) by lia. rewrite Z.mod_small by lia. lia.
+  - assert (0 <= z) by (destruct (Z.lt_ge_cases z 0); [|assumption]; exfalso;
+      rewrite <- (Z.mod_add z 1 4294967296) in L by lia; rewrite Z.mod_small in L by lia; lia).
+    apply Z.mod_small. lia.
+Qed.
+(* a load of cell i of the array: inside the block, the value is the i-th int *)
+Lemma load_int_arr m b l i : int_arr_at m b l -> 0 <= i < Z.of_nat (length l) -> load m b i = Ok (VInt (nthz l i)).
+Proof.
+  intros Hm Hi. unfold load. rewrite Hm. destruct (Z.ltb_spec i 0); [lia|].
+  rewrite nth_error_map, (nth_error_nth' l 0) by lia. reflexivity.
+Qed.
+Lemma load_int_arr_oob m b l i : int_arr_at m b l -> (i < 0 \/ Z.of_nat (length l) <= i) -> load m b i = Err EOob.
+Proof.
+  intros Hm Hi. unfold load. rewrite Hm. destruct (Z.ltb_spec i 0); [reflexivity|].
+  replace (nth_error _ _) with (@None val); [reflexivity|]. symmetry. apply nth_error_None. rewrite map_length. lia.
+Qed.
+Lemma nthz_ok l i : ints_ok l -> -2147483648 <= nthz l i <= 2147483647.
+Proof.
+  intro H. unfold nthz. destruct (Nat.lt_ge_cases (Z.to_nat i) (length l)) as [L|L].
+  - unfold ints_ok in H. rewrite Forall_forall in H. apply H. apply nth_In. exact L.
+  - rewrite nth_overflow by exact L. lia.
+Qed.
+Lemma skipn_cons_nthz (l : list Z) i : (i < length l)%nat -> skipn i l = nthz l (Z.of_nat i) :: skipn (S i) l.
+Proof.
+  unfold nthz. rewrite Nat2Z.id. revert l; induction i as [|i IH]; intros [|x l] H; cbn in H; try lia; [reflexivity|].
+  cbn [skipn nth]. rewrite IH by lia. reflexivity.
+Qed.
+Lemma nthz_firstn (l : list Z) n i : 0 <= i < Z.of_nat n -> nthz (firstn n l) i = nthz l i.
+Proof.
+  intro H. unfold nthz. destruct (Nat.lt_ge_cases (Z.to_nat i) (length l)) as [L|L].
+  - rewrite <- (firstn_skipn n l) at 2. rewrite app_nth1 by (rewrite firstn_length; lia). reflexivity.
+  - rewrite !nth_overflow; [reflexivity|lia|rewrite firstn_length; lia].
+Qed.
+(* a store into cell i replaces the i-th int; the block is again an int array *)
+Lemma map_upd {A B} (f : A -> B) (l : list A) n x : map f (upd l n x) = upd (map f l) n (f x).
+Proof. unfold upd. rewrite map_app, firstn_map. cbn [map]. rewrite skipn_map. reflexivity. Qed.
+Lemma store_int_arr m b l i v : int_arr_at m b l -> 0 <= i < Z.of_nat (length l) ->
+  store m b i (VInt v) = Ok (upd m b (map VInt (upd l (Z.to_nat i) v))).
+Proof. intros Hm Hi. rewrite map_upd. apply store_ok; [exact Hm|rewrite map_length; exact Hi]. Qed.
+Lemma store_int_arr_oob m b l i v : int_arr_at m b l -> (i < 0 \/ Z.of_nat (length l) <= i) -> store m b i v = Err EOob.
+Proof. intros Hm Hi. apply (store_oob m b (map VInt l)); [exact Hm|rewrite map_length; exact Hi]. Qed.
+Lemma int_arr_at_upd m b l l' : int_arr_at m b l -> int_arr_at (upd m b (map VInt l')) b l'.
+Proof. intro H. unfold int_arr_at. apply mem_upd_same. apply nth_error_Some. unfold int_arr_at in H. congruence. Qed.
+Lemma int_arr_upd_upd m b l l1 l2 : int_arr_at m b l -> upd (upd m b (map VInt l1)) b (map VInt l2) = upd m b (map VInt l2).
+Proof. intro H. apply upd_upd. apply nth_error_Some. unfold int_arr_at in H. congruence. Qed.
+Lemma int_arr_upd_self m b l : int_arr_at m b l -> upd m b (map VInt l) = m.
+Proof. apply upd_self. Qed.
+Lemma nth_upd {A} (l : list A) n i x d : (n < length l)%nat -> nth i (upd l n x) d = if Nat.eqb i n then x else nth i l d.
+Proof.
+  intro H. destruct (Nat.eqb_spec i n) as [->|Hne].
+  - apply nth_error_nth. apply nth_error_upd_same. exact H.
+  - destruct (Nat.lt_ge_cases i (length l)) as [L|L].
+    + apply nth_error_nth. rewrite nth_error_upd_other by assumption. apply nth_error_nth'. exact L.
+    + rewrite !nth_overflow; [reflexivity|exact L|rewrite upd_length; assumption].
+Qed.
+Lemma ints_ok_upd l n x : ints_ok l -> -2147483648 <= x <= 2147483647 -> ints_ok (upd l n x).
+Proof.
+  intros H Hx. unfold ints_ok, upd in *. apply Forall_app. split; [apply Forall_firstn'; exact H|].
+  apply Forall_cons; [exact Hx|apply Forall_skipn'; exact H].
+Qed.
